@@ -241,6 +241,7 @@ pub fn run(rep: &Report) {
     run_structures(rep, "holder key with a leading zero octet in a coordinate: S(3,3) x {NoSD, Top, All} x 2 cfgs (the confirmation claim must carry the key exactly as given)", &trees(3, 3), &fixed_strategies, &lz, checks, false);
     run_structures(rep, "issuer identifiers of 16 shapes (mixed case, trailing slash, default port, DID / URN, blanks, empty, non-ASCII, percent-encoded) x 2 trees x {NoSD, Top, All} x 8 cfgs", &iss_variant_trees(), &fixed_strategies, &c8, checks, false);
     run_structures(rep, "the holder's own public key as a user claim named sub_jwk / jwk / holder_key / cnf2 / confirmation (3 positions each) x 8 strategies x 8 cfgs", &confirmation_like_trees(), &few_strategies, &c8, checks, false);
+    run_structures(rep, "iat value shapes: 11 values (null, strings, containers, floats, huge) x 3 positions x {NoSD, Top, All} x 8 cfgs: a root iat stays visible with the value given", &iat_trees(), &fixed_strategies, &c8, checks, false);
     run_structures(rep, "related-value pairs: 23 values in every ordered pair, equal pairs included, in 5 container shapes x {Top, All, 2 Custom}", &value_pair_trees(), &pair_strategies, &c8, checks, false);
     run_structures(rep, "count sweep: every member / element count 0..40 and around 64, 128, 256 x {NoSD, Top, All}", &count_sweep_trees(), &count_sweep_strategies, &c8, checks, false);
     run_structures(rep, "wide containers: arrays / objects of 11, 100, 300 entries x 6 strategies", &wide_trees(), &wide_strategies, &c8, checks, false);
